@@ -253,6 +253,8 @@ impl Gen {
             PLabel::G('φ'),
             PLabel::G('ρ'),
             PLabel::G('𝜑'),
+            PLabel::G('\u{10FFFF}'),
+            PLabel::G('-'),
             PLabel::S("foo".into()),
             PLabel::S("bar".into()),
             PLabel::S("héllo".into()),
@@ -334,7 +336,29 @@ impl Gen {
         self.put_counter += 1;
         let len = *self.rng.pick(&self.lens);
         let c = self.put_counter.to_le_bytes();
-        (0..len).map(|i| c[i % 8] ^ ((i / 8) as u8).wrapping_mul(31)).collect()
+        let mut d: Vec<u8> = (0..len).map(|i| c[i % 8] ^ ((i / 8) as u8).wrapping_mul(31)).collect();
+        // values, not only lengths: all byte values, extremes, text
+        match self.rng.below(12) {
+            0 => {
+                let mut x = self.put_counter.wrapping_mul(0x9E37_79B9_7F4A_7C15);
+                for b in &mut d {
+                    x ^= x >> 29;
+                    x = x.wrapping_mul(0xBF58_476D_1CE4_E5B9);
+                    *b = (x >> 56) as u8;
+                }
+            }
+            1 => d.iter_mut().for_each(|b| *b = 0xFF),
+            2 => d.iter_mut().for_each(|b| *b = 0x00),
+            3 => {
+                let text = "привет, мир! 図形 𝜑 hello".as_bytes();
+                for (i, b) in d.iter_mut().enumerate() {
+                    *b = text[i % text.len()];
+                }
+            }
+            4 => d.iter_mut().for_each(|b| *b = 0x80),
+            _ => {}
+        }
+        d
     }
 
     fn label(&mut self) -> PLabel {
@@ -838,6 +862,13 @@ impl Gen {
                 // the count that makes a revision number wrap exactly depends on how many bumps the
                 // code under test makes around it: try the multiple itself and its close neighbours
                 let times = base + [0_usize, 1, 2, 2, 2, 3, 4][self.rng.below(7)] - 1;
+                if self.rng.chance(1, 3) && !m.adoptive {
+                    // the same cheap call many times: round and not so round counts
+                    let v = self.pick_present(m)?;
+                    let times = *self.rng.pick(&[100_usize, 127, 128, 129, 255, 256, 257, 1_000, 1_024]);
+                    let kind = self.rng.below(5) as u8;
+                    return Some(Step::Repeat { i, kind, v: view.name(v), times });
+                }
                 if self.rng.chance(1, 3) {
                     let v = self.pick_present(m)?;
                     if !m.closure(v, &|_, _, _| true).is_some_and(|c| c.len() <= 14) {
